@@ -254,8 +254,8 @@ def get_func(fa, name):
     if name.startswith("gen:"):
         from .progen import get_generated
 
-        _, seed, kind = name.split(":")
-        return get_generated(int(seed), kind == "c")[0]
+        parts = name.split(":")
+        return get_generated(int(parts[1]), parts[2] == "c", len(parts) > 3 and parts[3] == "i")[0]
     return getattr(fa.algorithms, name)
 
 
@@ -265,7 +265,9 @@ def generated_request(rng, target):
 
     seed = rng.getrandbits(32)
     cplx = rng.random() < 0.3
-    _, nargs, _ = get_generated(seed, cplx)
+    # literal infinities: not for the python target, which prints them as the bare name `inf` (not claimed)
+    inf = target != "python" and rng.random() < 0.3
+    _, nargs, _ = get_generated(seed, cplx, inf)
     tys = STRESS_SIGS[target]["complex" if cplx else "float"]
     if target == "cpp":
         # double only: the cpp target emits constants as untyped (double) literals, so float32 programs that
@@ -273,7 +275,7 @@ def generated_request(rng, target):
         # program-dimension matter about constant typing, outside the scoped claim (DESIGN.md section 11)
         tys = [x for x in tys if x in (":float64", ":complex128")]
     ty = rng.choice(tys)
-    return dict(target=target, func="gen:%d:%s" % (seed, "c" if cplx else "r"), sig=[ty] * nargs, sigidx=0)
+    return dict(target=target, func="gen:%d:%s%s" % (seed, "c" if cplx else "r", ":i" if inf else ""), sig=[ty] * nargs, sigidx=0)
 
 
 def build_universe(fa, extra_targets=()):
